@@ -36,6 +36,9 @@ struct Explorer {
   std::vector<double> literals;
   std::map<uint32_t, std::vector<double>> site_roots;
   std::vector<double> last_roots;
+  std::set<uint32_t> swept;
+  uint32_t last_ctx_for_sweep = 0;
+  long sweep_execs = 0;
   std::set<uint64_t> sigs;
   std::vector<Violation> viols;
   std::vector<std::string> samples;
@@ -90,7 +93,12 @@ struct Explorer {
       o.margin = d0ref::mon.min_margin;
       o.p = P.shot(f, false);
       o.diff = compare(cfg, o.r, o.p);
-      o.robust = o.margin >= tau;
+      // a near-tie inside the golden-section search (tolerance 1e-3 of the range) may move the located spectrum maximum,
+      // hence every rejection threshold scaled by it, by up to ~(tolerance)^2 x curvature: demand a 2e-3 margin then
+      // rejection tests of the beta samplers: 2e-4 (short constants of the reference inside the Fermi function)
+      double tau_shape = d0ref::mon.min_qmargin < tau ? 2e-3 : 2e-4;
+      o.robust = o.margin >= tau && d0ref::mon.min_smargin >= std::max(tau, tau_shape);
+      o.margin = std::min(o.margin, d0ref::mon.min_smargin);
       validated++;
     } else {
       o.p = P.shot(f, true);
@@ -290,6 +298,46 @@ struct Explorer {
         if (v > 0 && v < 1) al.push_back(v);
       }
     }
+    // ---- shape sweep (the "function-level companion" of DESIGN C01): a computed threshold (rejection test against a
+    // spectrum/shape function) is a function of the preceding continuous draw; a wrong table entry or shape constant
+    // only shows where that draw lands in the affected range. Sweep the preceding draw over a 24-point grid and probe both
+    // sides of the re-discovered threshold at each point (ladder as above); not pushed to the worklist.
+    if (model && i > 0 && !swept.count(last_ctx_for_sweep)) {
+      // does the threshold set move with the preceding draw? (one alternate value decides)
+      bool computed = false;
+      if (!roots.empty()) {
+        Forced b1 = base;
+        double cur = base.count(i - 1) ? base.at(i - 1) : vx::stream_value(PHASE, i - 1);
+        b1[i - 1] = cur < 0.5 ? cur + 0.37 : cur - 0.37;
+        auto alt = discover(b1, i);
+        if (alt.size() != roots.size()) computed = true;
+        else
+          for (size_t k = 0; k < alt.size(); k++)
+            if (std::fabs(alt[k].u - roots[k].u) > 1e-9 * roots[k].u) computed = true;
+      }
+      if (getenv("DX_DEBUG")) fprintf(stderr, "sweep? i=%zu ctx=%08x roots=%zu computed=%d\n", i, last_ctx_for_sweep, roots.size(), (int)computed);
+      if (computed) {
+        swept.insert(last_ctx_for_sweep);
+        for (int g = 0; g < 24; g++) {
+          Forced b2 = base;
+          b2[i - 1] = (g + 0.5) / 24.0;
+          for (auto & r2 : discover(b2, i)) {
+            for (int side = -1; side <= 1; side += 2) {
+              for (double delta = 1e-7; delta <= 1.0001e-2; delta *= 10) {
+                double v = r2.u * (1 + side * delta);
+                if (!(v > 0 && v < 1)) break;
+                Forced g2 = b2;
+                g2[i] = v;
+                Out o = exec(g2, true);
+                sweep_execs++;
+                if (o.diff.empty()) break;
+                if (o.robust) { judge(o, g2); break; }
+              }
+            }
+          }
+        }
+      }
+    }
     return al;
   }
 
@@ -316,6 +364,7 @@ struct Explorer {
         Forced base;
         for (auto & kv : f)
           if (kv.first < i) base[kv.first] = kv.second;
+        last_ctx_for_sweep = o.ctx[i];
         for (double a : alphabet(base, i)) {
           Forced g = base;
           g[i] = a;
@@ -338,6 +387,7 @@ struct Explorer {
     size_t n = o.ctx.size();
     for (size_t i = from; i < n; i++) {
       Forced base = f;
+      last_ctx_for_sweep = o.ctx[i];
       for (double a : alphabet(base, i)) {
         Forced g = base;
         g[i] = a;
@@ -557,7 +607,7 @@ static std::string run_config(const Config & c, const Opts & o)
   }
   js << ",\"table_rel\":" << jnum(table_rel) << ",\"tau\":" << jnum(X.tau) << ",\"toall_port\":" << jnum(X.P.toall) << ",\"toall_ref\":" << jnum(X.R.toall) << ",\"qbb\":" << jnum(X.P.qbb) << ",\"ek\":" << jnum(X.P.ek) << ",\"edlevel\":" << jnum(X.P.edlevel) << ",\"zdbb\":" << jnum(X.P.zdbb) << ",\"init_draws\":" << X.P.init_draws;
   js << ",\"states\":" << X.expanded.size() << ",\"transitions\":" << X.edges << ",\"thresholds\":" << X.nthr << ",\"executions\":" << X.execs << ",\"model_runs\":" << X.model_runs
-     << ",\"validated\":" << X.validated << ",\"distinct\":" << X.sigs.size() << ",\"mismatches\":" << X.mism << ",\"ambiguous\":" << X.amb << ",\"horizon\":" << X.horizon
+     << ",\"sweep_execs\":" << X.sweep_execs << ",\"validated\":" << X.validated << ",\"distinct\":" << X.sigs.size() << ",\"mismatches\":" << X.mism << ",\"ambiguous\":" << X.amb << ",\"horizon\":" << X.horizon
      << ",\"san_reports\":" << X.san << ",\"max_draws\":" << X.inv.max_draws << ",\"max_np\":" << X.inv.max_np << ",\"max_kin\":" << jnum(X.inv.max_kin) << ",\"max_excess\":"
      << jnum(X.inv.max_excess) << ",\"max_deficit\":" << jnum(X.inv.max_deficit) << ",\"ccap_hit\":" << (X.ccap_hit ? "true" : "false") << ",\"deadline_hit\":"
      << (X.deadline_hit ? "true" : "false") << ",\"c_exhaustive\":" << (X.c_exhaustive ? "true" : "false") << ",\"layer_execs\":{";
@@ -688,7 +738,7 @@ int main(int argc, char ** argv)
       printf("port : %s\n", ev_json(p).c_str());
       if (R.available) {
         Ev r = R.shot(f);
-        printf("model: %s\nmodel_margin=%g\n", ev_json(r).c_str(), d0ref::mon.min_margin);
+        printf("model: %s\nmodel_margin=%g search_margin=%g\n", ev_json(r).c_str(), std::min(d0ref::mon.min_margin, d0ref::mon.min_smargin), d0ref::mon.min_qmargin);
         std::string d = compare(c, r, p);
         printf("compare: %s\n", d.empty() ? "equal" : d.c_str());
       }
